@@ -149,7 +149,7 @@ impl FixedOutputCore for MCore {
         buffer.digest_pad(0x80, &total.to_le_bytes(), |b| {
             st = mix(st, rd(&b[0..8]), rd(&b[8..16]))
         });
-        out.copy_from_slice(&st.to_le_bytes());
+        vk::put(out, &st.to_le_bytes());
     }
 }
 impl Reset for MCore {
